@@ -730,6 +730,22 @@ func mkEq(a, b *Term) *Term {
 	return ts.intern(&Term{op: OEq, kind: 'b', a: []*Term{a, b}})
 }
 
+// addNoWrap / subNoWrap: the signed intervals of the operands exclude overflow of x+y / x-y at width w
+func addNoWrap(x, y *Term, w int) bool {
+	l, o1 := addOvf(x.lo, y.lo)
+	h, o2 := addOvf(x.hi, y.hi)
+	return !o1 && !o2 && inW(l, w) && inW(h, w)
+}
+
+func subNoWrap(x, y *Term, w int) bool {
+	if y.hi == math.MinInt64 || y.lo == math.MinInt64 {
+		return false
+	}
+	l, o1 := addOvf(x.lo, -y.hi)
+	h, o2 := addOvf(x.hi, -y.lo)
+	return !o1 && !o2 && inW(l, w) && inW(h, w)
+}
+
 func mkCmp(op Op, a, b *Term) *Term {
 	if a.kind != 'v' || b.kind != 'v' || a.w != b.w {
 		panic(fmt.Sprintf("mkCmp sort mismatch %c%d %c%d", a.kind, a.w, b.kind, b.w))
@@ -774,6 +790,34 @@ func mkCmp(op Op, a, b *Term) *Term {
 	}
 	if op == OUle && a.isConst() && a.c == 0 {
 		return ts.True
+	}
+	// the wrap test of saturating arithmetic: when the range analysis shows that x+y (x-y) cannot overflow,
+	// (x+y) < x is y < 0 and (x-y) < x is 0 < y. This is what lets the overflow branches of addVal/subVal fold away
+	// for quantities far from the int64 limits instead of reaching the solver as mod-2^64 arithmetic.
+	if op == OSlt || op == OSle {
+		zero := mkConst(w, 0)
+		if a.op == OAdd && addNoWrap(a.a[0], a.a[1], w) {
+			if a.a[0] == b {
+				return mkCmp(op, a.a[1], zero)
+			}
+			if a.a[1] == b {
+				return mkCmp(op, a.a[0], zero)
+			}
+		}
+		if b.op == OAdd && addNoWrap(b.a[0], b.a[1], w) {
+			if b.a[0] == a {
+				return mkCmp(op, zero, b.a[1])
+			}
+			if b.a[1] == a {
+				return mkCmp(op, zero, b.a[0])
+			}
+		}
+		if a.op == OSub && a.a[0] == b && subNoWrap(a.a[0], a.a[1], w) {
+			return mkCmp(op, zero, a.a[1])
+		}
+		if b.op == OSub && b.a[0] == a && subNoWrap(b.a[0], b.a[1], w) {
+			return mkCmp(op, b.a[1], zero)
+		}
 	}
 	// push comparison with constants through ite when both arms fold
 	if b.isConst() && a.op == OIte && a.a[1].isConst() && a.a[2].isConst() {
